@@ -247,8 +247,9 @@ func (x *Exec) zeroResult(fn *ssa.Function) Val {
 
 // applyContract: modular call — check the precondition, havoc what the callee may assign, assume the postcondition.
 func (x *Exec) applyContract(st *State, pk *Pkg, fn *ssa.Function, fc *FuncContract, args []Val) (result Val) {
-	if fc.Pure {
-		// the results are uninterpreted applications, not fresh symbols: the hypotheses are kept by the ordinary rule
+	if fc.Pure || (fn.Signature.Results().Len() == 0 && len(fc.Assigns) == 0) {
+		// the results are uninterpreted applications, not fresh symbols (or there are none: a ghost lemma, whose
+		// postcondition speaks about the caller's own terms): the hypotheses are kept by the ordinary rule
 		return x.applyContract1(st, pk, fn, fc, args)
 	}
 	x.defining(func() { result = x.applyContract1(st, pk, fn, fc, args) })
@@ -261,10 +262,17 @@ func (x *Exec) applyContract1(st *State, pk *Pkg, fn *ssa.Function, fc *FuncCont
 	x.callSeq++
 	label := ContractKey(fn)
 	x.callees[InstName(fn)] = true
+	if fc.Trusted {
+		// an axiom: the contract is assumed, nothing verifies it
+		x.trusted["TRUSTED AXIOM (contract assumed, never verified): "+InstName(fn)] = true
+	}
 	pre := st.clone()
 	env := &SpecEnv{x: x, pk: pk, vars: map[string]SVal{}, pre: pre, post: nil, tparams: tparamMap(fn), allocPre: pre.Alloc}
 	for i, p := range fn.Params {
 		env.vars[p.Name()] = SVal{V: args[i], T: p.Type()}
+	}
+	for _, g := range fc.Ghost {
+		env.vars[g.Tags[0]] = env.eval(g.E) // named values of the call's pre-state
 	}
 	for i, c := range fc.Requires {
 		x.oblige("pre", fmt.Sprintf("%s.%d", label, i), c.Tags, c.Text, st.Guard, x.evalClauseOf(env, c, fc))
@@ -281,6 +289,7 @@ func (x *Exec) applyContract1(st *State, pk *Pkg, fn *ssa.Function, fc *FuncCont
 	// [base+2^19, newbase), and everything allocated later is at or above newbase >= base+2^20
 	env.allocPre = o.Add(pre.Alloc, o.Int(1<<19))
 	na := o.Fresh(fmt.Sprintf("alloc.c%d", seq), IntSort)
+	o.allocVars[na] = true
 	x.assume(o.Ge(na, o.Add(st.Alloc, o.Int(1<<20))))
 	st.Alloc = na
 	// results
@@ -352,6 +361,18 @@ func (x *Exec) havocTarget(st *State, env *SpecEnv, target string, tag string) {
 			panic(r)
 		}
 	}()
+	if call, ok := ex.(*ECall); ok {
+		if id, ok := call.Fun.(*EIdent); ok && id.Name == "decoder" && len(call.Args) == 1 {
+			// the ghost state of a json decoder: cursor, depth and position flags change; the document does not
+			v := env.eval(call.Args[0])
+			obj, d := x.decoderOf(st, v.V)
+			nd := DecVal{View: d.View, Pos: o.Fresh(tag+".pos", IntSort), Depth: o.Fresh(tag+".depth", IntSort),
+				InObj: o.Fresh(tag+".inobj", BoolSort), AtKey: o.Fresh(tag+".atkey", BoolSort)}
+			x.assume(o.And(o.Le(d.Pos, nd.Pos), o.Le(nd.Pos, x.nTok(d.View)), o.Le(o.Int(0), nd.Depth)))
+			st.Cells[obj] = nd
+			return
+		}
+	}
 	switch t := ex.(type) {
 	case *EUnary:
 		if t.Op == "*" {
@@ -561,15 +582,17 @@ func (x *Exec) appendByte(st *State, dst SliceVal, b *Term) SliceVal {
 
 // ---- interface method calls ----------------------------------------------------------------------------------
 
+func invokeKey(c *ssa.CallCommon) string {
+	return shortTypeNoPkg(c.Value.Type()) + "." + c.Method.Name()
+}
+
 func (x *Exec) invoke(st *State, site ssa.Instruction, c *ssa.CallCommon) Val {
 	recv := x.operand(st, c.Value)
 	var args []Val
 	for _, a := range c.Args {
 		args = append(args, x.operand(st, a))
 	}
-	mname := c.Method.Name()
-	it := c.Value.Type()
-	key := shortTypeNoPkg(it) + "." + mname
+	key := invokeKey(c)
 	if h, ok := invokeSchemas[key]; ok {
 		return h(x, st, recv, args, c)
 	}
@@ -713,6 +736,24 @@ func (x *Exec) specEnv(pre, post *State) *SpecEnv {
 	env := &SpecEnv{x: x, pk: x.pk, vars: map[string]SVal{}, pre: pre, post: post, tparams: x.tparams, allocPre: pre.Alloc}
 	for k, v := range x.params {
 		env.vars[k] = v
+	}
+	// ghost name = expr: named values of the entry state
+	if x.fc != nil && len(x.fc.Ghost) > 0 && x.entry != nil && pre == x.entry {
+		if x.ghostVals == nil {
+			x.ghostVals = map[string]SVal{}
+			genv := &SpecEnv{x: x, pk: x.pk, vars: map[string]SVal{}, pre: x.entry, post: x.entry, tparams: x.tparams, allocPre: x.entry.Alloc}
+			for k, v := range x.params {
+				genv.vars[k] = v
+			}
+			for _, g := range x.fc.Ghost {
+				v := genv.eval(g.E)
+				genv.vars[g.Tags[0]] = v
+				x.ghostVals[g.Tags[0]] = v
+			}
+		}
+		for k, v := range x.ghostVals {
+			env.vars[k] = v
+		}
 	}
 	return env
 }
@@ -1106,7 +1147,7 @@ func (x *Exec) pureAppN(fn *ssa.Function, fc *FuncContract, args []Val, st *Stat
 		for i := range p.seqs {
 			eqs = append(eqs, x.seqEq(p.seqs[i], rec.seqs[i]))
 		}
-		x.assume(o.Implies(o.And(eqs...), o.Eq(p.res, r)))
+		x.assumeClosed(o.Implies(o.And(eqs...), o.Eq(p.res, r)))
 	}
 	if !dup {
 		x.pureApps[name] = append(x.pureApps[name], rec)
